@@ -220,10 +220,13 @@ func (z *ZodObject[T, R]) PrefaultFunc(fn func() T) *ZodObject[T, R] {
 	return z.withInternals(in)
 }
 
-// Meta attaches GlobalMeta to this object schema via the global registry.
+// Meta returns a new schema with the given metadata stored in the global
+// registry; the receiver and its registry entry are unchanged.
 func (z *ZodObject[T, R]) Meta(meta core.GlobalMeta) *ZodObject[T, R] {
-	core.GlobalRegistry.Add(z, meta)
-	return z
+	newInternals := z.internals.Clone()
+	clone := z.withInternals(newInternals)
+	core.GlobalRegistry.Add(clone, meta)
+	return clone
 }
 
 // Describe registers a description in the global registry.
